@@ -124,8 +124,12 @@ def line_end_rule(prog, ctx, rule, L=None):
             chars = a[1].string_value() if c.j["callee"] in ("strcspn", "strpbrk") else None
             if chars is None and len(a) > 1 and a[1].const_value() is not None:
                 chars = chr(a[1].const_value())
+            cpar = next((q["name"] for q in f.params if q["name"] == "comment"), None)
             if chars == "\n":
                 ctx.ok(rule, "the line is cut only at its end", st.where, "%s: a line read by getline() holds at most one newline, at its end" % render(c))
+            elif chars is None and cpar is not None and len(a) > 1 and (render(a[1]) == cpar or render(a[1]).startswith(cpar + "[")):
+                # the cut at the first comment character is the parser's own rule (continuation lines lose their trailing comment): C05's business
+                ctx.ok(rule, "the line is cut only at its end", st.where, "%s: cut where the comment starts, by the caller's comment set" % render(c))
             else:
                 ctx.fail(rule, "the line is cut only at its end", st.where,
                          "`%s` ends the line at the first %s anywhere in it: the rest of a comment or value that contains such a character is dropped"
